@@ -56,7 +56,7 @@ def ev(v, val, hooks=None):
                 if r is not NotImplemented:
                     return r
         op, a = v.op, v.args
-        if op in ('rxmatch', 'group', 'rxdyn'):
+        if op in ('rxmatch', 'group', 'rxdyn', 'mpos'):
             from . import rxmodel
             r = rxmodel.hook(v, val, hooks)
             if r is not NotImplemented:
